@@ -206,7 +206,7 @@ func (x *Exec) callResolved(fr *Frame, st *State, fn *ssa.Function, args []Val, 
 	if res, ok, err := x.model(fr, st, fn, args, site); ok || err != nil {
 		return res, err
 	}
-	if fc := x.DB.For(fn); fc != nil && fn != x.Top && fc.HasSpec() {
+	if fc := x.DB.For(fn); fc != nil && fn != x.Top && fc.HasSpec() && fc.Opts["inline"] == "" {
 		return x.applyContract(fr, st, fn, fc, args, site)
 	}
 	if len(fn.Blocks) == 0 || !strings.HasPrefix(pkgPathOf(fn), modPath) && !x.inlineStdlib(fn) {
